@@ -11,25 +11,19 @@
     parameters (the driver instantiates them with `Gen.isSpace` / `Gen.reSpace`).
   * `eq` models character equality under `re.IGNORECASE` (or plain equality).
   * the six word regexes are replaced by hand-written scanners over maximal
-    runs of a character class; the pattern strings are pinned below.
+    runs of a character class; the pattern strings are pinned in Ptk.Props.C02Gen.
   * relative motions return `Int` (offsets) / `Option Int` (`None`).
 -/
 import Ptk.Py
-import Ptk.Gen.C02Patterns
 namespace Ptk.C02
 open Ptk.Py
 
-/-! ### pattern pins: the scanners below are written for exactly these regexes -/
-example : Gen.C02.findWordRe = "([a-zA-Z0-9_]+|[^a-zA-Z0-9_\\s]+)" := by decide
-example : Gen.C02.findCurrentWordRe = "^([a-zA-Z0-9_]+|[^a-zA-Z0-9_\\s]+)" := by decide
-example : Gen.C02.findCurrentWordWsRe = "^(([a-zA-Z0-9_]+|[^a-zA-Z0-9_\\s]+)\\s*)" := by decide
-example : Gen.C02.findBigWordRe = "([^\\s]+)" := by decide
-example : Gen.C02.findCurrentBigWordRe = "^([^\\s]+)" := by decide
-example : Gen.C02.findCurrentBigWordWsRe = "^([^\\s]+\\s*)" := by decide
--- no IGNORECASE / MULTILINE / DOTALL / ASCII flag on any of them (32 = re.UNICODE)
-example : [Gen.C02.findWordReFlags, Gen.C02.findCurrentWordReFlags, Gen.C02.findCurrentWordWsReFlags,
-           Gen.C02.findBigWordReFlags, Gen.C02.findCurrentBigWordReFlags,
-           Gen.C02.findCurrentBigWordWsReFlags] = [32, 32, 32, 32, 32, 32] := by decide
+/-! ### pattern pins
+  The scanners below are written for exactly the six regexes of `document.py`; the pattern strings
+  and flags regenerated into `Ptk.Gen.C02Patterns` are pinned in `Ptk.Props.C02Gen`
+  (`gen_patterns_ok`), the character classes of the compiled regex objects in `gen_ok`, so that a
+  changed pattern breaks a proof obligation while this model (and the driver) still builds and the
+  correspondence shows the diverging input. -/
 
 structure Doc where
   text : Text
@@ -68,14 +62,29 @@ def lineStarts (t : Text) : List Nat :=
   let idx := 0 :: cumul 0 (lines t)
   if idx.length > 1 then idx.dropLast else idx
 
-/-- `bisect.bisect_right(a, x)` on a sorted list: the number of entries `≤ x`
-    (stdlib function; modelled by its specification on sorted input). -/
+/-- specification of `bisect.bisect_right(a, x)` on a sorted list: the number of entries `≤ x` -/
 def bisectRight (a : List Nat) (x : Nat) : Nat := (a.takeWhile (· ≤ x)).length
+
+/-- the loop of `bisect.bisect_right` as the standard library writes it (Lib/bisect.py; the C
+    accelerator `_bisect` is the same binary search):
+    `while lo < hi: mid = (lo + hi) // 2; if x < a[mid]: hi = mid else: lo = mid + 1; return lo`.
+    `fuel` bounds the number of iterations (`hi - lo` shrinks in every step). -/
+def bisectLoop (a : List Nat) (x : Nat) : Nat → Nat → Nat → Nat
+  | 0, lo, _ => lo
+  | f + 1, lo, hi =>
+    if lo < hi then
+      let mid := (lo + hi) / 2
+      if x < a[mid]?.getD 0 then bisectLoop a x f lo mid else bisectLoop a x f (mid + 1) hi
+    else lo
+
+/-- `bisect.bisect_right(a, x)` (`lo = 0`, `hi = len(a)`); equal to `bisectRight` on sorted lists
+    (`bisectRightAlg_eq` in `Ptk.Props.C02Lines`) -/
+def bisectRightAlg (a : List Nat) (x : Nat) : Nat := bisectLoop a x (a.length + 1) 0 a.length
 
 /-- `_find_line_start_index(index)` → `(row, start index of that row)` -/
 def findLineStart (t : Text) (i : Nat) : Nat × Nat :=
   let idx := lineStarts t
-  let pos := bisectRight idx i - 1
+  let pos := bisectRightAlg idx i - 1
   (pos, idx[pos]?.getD 0)
 
 /-- `translate_index_to_position(index)` -/
@@ -489,7 +498,7 @@ deriving DecidableEq, Repr
 /-- `translate_index_to_position` reading the tables from the cache -/
 def cachedIndexToPos (c : Cache) (t : Text) (i : Nat) : (Nat × Nat) × Cache :=
   let r := cachedStarts c t
-  let pos := bisectRight r.1 i - 1
+  let pos := bisectRightAlg r.1 i - 1
   ((pos, i - r.1[pos]?.getD 0), r.2)
 
 /-- `translate_row_col_to_index` reading the tables from the cache -/
